@@ -57,6 +57,12 @@ REST_SENDS = {
     'R_WD': ('POST', 'send/update', {'withdraw': ['198.51.100.0/24']}),
     'R_RR': ('POST', 'send/route-refresh', {'afi': 1, 'safi': 1}),
     'R_BIN': ('POST', 'send/bin_update', {'binary_data': UPD_ROUTE.hex()}),
+    # requests the agent refuses or cannot encode: nothing reaches the wire (C18: nothing may be counted)
+    'R_RR6': ('POST', 'send/route-refresh', {'afi': 2, 'safi': 1}),
+    'R_RRVPN': ('POST', 'send/route-refresh', {'afi': 1, 'safi': 128}),
+    'R_UPDBAD': ('POST', 'send/update', {'attr': {'1': 0, '2': [], '3': 'not-an-address', '5': 100}, 'nlri': ['198.51.100.0/24']}),
+    'R_UPDNOATTR': ('POST', 'send/update', {'nlri': ['198.51.100.0/24']}),
+    'R_BINBAD': ('POST', 'send/bin_update', {'binary_data': 'zz'}),
 }
 
 
